@@ -5,9 +5,9 @@ package main
 // parameters bound at their call sites (constants, opts.JSON, the caller's own binding).
 
 import (
-	"go/types"
 	"fmt"
 	"go/token"
+	"go/types"
 	"os"
 	"sort"
 	"strings"
@@ -39,6 +39,10 @@ type ou1Summary struct {
 	minJ, maxJ int
 	canSucceed bool
 	jsonSites  []ou1Site
+	// the most JSON values on a path that ends in a success return / in a failing return (a helper that writes the JSON
+	// error object and then hands back the error: its one value belongs to the failing outcome only)
+	maxJSucc, maxJFail int
+	split              bool
 }
 
 type ou1 struct {
@@ -69,6 +73,9 @@ func (o *ou1) boolValue(v ssa.Value, binds map[*ssa.Parameter]tri) tri {
 	}
 	if base, n, ok := fieldLoad(v); ok && n == "JSON" && namedTypeName(base.Type()) == "ergo.GlobalOptions" {
 		return triT
+	}
+	if n, ok := optionsFieldLoad(v); ok && n == "JSON" {
+		return triT // the flag inside an option group (opts.Output.JSON)
 	}
 	if p, ok := v.(*ssa.Parameter); ok {
 		return binds[p]
@@ -109,6 +116,7 @@ func (o *ou1) eval(fn *ssa.Function, binds map[*ssa.Parameter]tri) *ou1Summary {
 	live := reach(fn.Blocks[0], removed, nil)
 	wMin := make([]int, len(fn.Blocks))
 	wMax := make([]int, len(fn.Blocks))
+	ewMax := map[edge]int{}
 	for _, b := range fn.Blocks {
 		if !live[b] {
 			continue
@@ -191,6 +199,26 @@ func (o *ou1) eval(fn *ssa.Function, binds map[*ssa.Parameter]tri) *ou1Summary {
 					}
 				}
 				sub := o.eval(cal, nb)
+				// a helper whose error is tested right here: what it wrote counts per outcome
+				if cv, isCall := call.(*ssa.Call); isCall && sub.split && sub.maxJSucc != sub.maxJFail && sub.maxJ < inf {
+					nn := nonNilErrEdges(fn, cv)
+					if len(nn) > 0 {
+						for e := range nn {
+							ewMax[e] += sub.maxJFail
+							for i := range e.From.Succs {
+								if i != e.Succ {
+									ewMax[edge{e.From, i}] += sub.maxJSucc
+								}
+							}
+						}
+						s.texts = append(s.texts, sub.texts...)
+						s.jsonSites = append(s.jsonSites, sub.jsonSites...)
+						if sub.canSucceed && sub.minJ < inf {
+							wMin[b.Index] += sub.minJ
+						}
+						break
+					}
+				}
 				o.merge(s, sub, b, wMin, wMax)
 			case cal == nil && !cc.IsInvoke():
 				if mc, ok := resolve(cc.Value).(*ssa.MakeClosure); ok {
@@ -244,7 +272,7 @@ func (o *ou1) eval(fn *ssa.Function, binds map[*ssa.Parameter]tri) *ou1Summary {
 				if removed[edge{b, i}] {
 					continue
 				}
-				if v := lp(sc); v > mx {
+				if v := lp(sc) + ewMax[edge{b, i}]; v > mx {
 					mx = v
 				}
 			}
@@ -252,6 +280,55 @@ func (o *ou1) eval(fn *ssa.Function, binds map[*ssa.Parameter]tri) *ou1Summary {
 			return memo[b]
 		}
 		s.maxJ = lp(fn.Blocks[0])
+	}
+	// the same maximum, separately for paths that end in a success return and in a failing one
+	if !cyc && len(fn.Signature.Results().String()) > 0 {
+		res := fn.Signature.Results()
+		if res.Len() > 0 && res.At(res.Len()-1).Type().String() == "error" {
+			longestTo := func(target func(b *ssa.BasicBlock) bool) int {
+				memo := map[*ssa.BasicBlock]int{}
+				vis := map[*ssa.BasicBlock]bool{}
+				const none = -1 << 30
+				var lp func(b *ssa.BasicBlock) int
+				lp = func(b *ssa.BasicBlock) int {
+					if v, ok := memo[b]; ok {
+						return v
+					}
+					if vis[b] {
+						return none
+					}
+					vis[b] = true
+					best := none
+					if len(b.Succs) == 0 && target(b) {
+						best = 0
+					}
+					for i, sc := range b.Succs {
+						if removed[edge{b, i}] {
+							continue
+						}
+						if v := lp(sc); v > none && v+ewMax[edge{b, i}] > best {
+							best = v + ewMax[edge{b, i}]
+						}
+					}
+					if best > none {
+						best += wMax[b.Index]
+					}
+					memo[b] = best
+					return best
+				}
+				if v := lp(fn.Blocks[0]); v > none {
+					return v
+				}
+				return 0
+			}
+			isRet := func(b *ssa.BasicBlock) bool {
+				_, ok := b.Instrs[len(b.Instrs)-1].(*ssa.Return)
+				return ok && b.Comment != "recover"
+			}
+			s.maxJSucc = longestTo(func(b *ssa.BasicBlock) bool { return isRet(b) && succ[b] })
+			s.maxJFail = longestTo(func(b *ssa.BasicBlock) bool { return isRet(b) && !succ[b] })
+			s.split = true
+		}
 	}
 	// shortest path to a success return (Dijkstra-free: weights small, relax by BFS over (block) with Bellman-Ford)
 	dist := map[*ssa.BasicBlock]int{fn.Blocks[0]: wMin[0]}
